@@ -23,6 +23,19 @@
 //!   the answer is there), the crash is `Sim::crash` + `Sim::bounce`, and the
 //!   post-crash observation is made by the restarted software.
 //!
+//! * sub-check `handles` (+ `sim-handles`): a bounded-exhaustive family of
+//!   histories with two handles open on one file at the same time — every
+//!   writable access mode for the handle the data goes through, every access
+//!   mode (read-only included) for the handle the sync is issued on, every sync
+//!   flavour through every front end — each with a crash after every prefix
+//!   (`handle_family`).  The random classes produce the same shapes with up to
+//!   four handles (prologue kinds 4-7, the `reopen` op shape).  The durability
+//!   model is per FILE: the property's "contents are those at its last data
+//!   sync (sync_all, sync_data or an io_uring fsync)" and the rustdoc of
+//!   `File::sync_all` ("equivalent to calling fsync() on the file descriptor
+//!   ... File contents (all writes)") make a successful sync on any descriptor
+//!   cover what was written through every descriptor of that file.
+//!
 //! Expectations are asserted only for paths all of whose ancestors exist
 //! durably (dangling subtrees are unspecified by the crate's model), not for
 //! the two names of a cross-directory rename until both parents were synced
@@ -329,6 +342,12 @@ struct Dur {
     /// incarnation and what is made durable below the new one mix; everything
     /// strictly below such a path is a dangling subtree, not asserted
     redirs: BTreeSet<String>,
+    /// per file inode: the handle slots (with their access-mode tag) through
+    /// which data mutations were made that no explicit file sync has covered
+    /// yet.  Only used for the class labels: the durability model itself is
+    /// per file (fsync / sync_all / sync_data are promised per FILE, whatever
+    /// descriptor they are issued on).
+    pending_via: BTreeMap<Ino, BTreeSet<usize>>,
 }
 
 /// A cross-directory rename of a file: by the property's quantifier its two
@@ -359,6 +378,21 @@ struct Chain<'a> {
     sim: Option<Rc<SimShared>>,
     crashes: u64,
     nt: bool,
+    /// resolved handle slot of the handle op being executed (the same
+    /// resolution the C10 interpreter makes), with the handle's access tag
+    cur_handle: Option<(usize, &'static str)>,
+}
+
+/// Access-mode class of a handle.
+fn access_tag(mh: &crate::models::posixfs::MHandle) -> &'static str {
+    match (mh.readable, mh.writable, mh.append) {
+        (true, false, _) => "read-only",
+        (true, true, false) => "read-write",
+        (false, true, false) => "write-only",
+        (true, true, true) => "read-append",
+        (false, true, true) => "append-only",
+        (false, false, _) => "no-access",
+    }
 }
 
 fn hex(d: &[u8]) -> String {
@@ -388,19 +422,29 @@ impl<'a> Chain<'a> {
     /// Feed one executed step into the durability model and apply the
     /// durability-specific taints of the (still known) C10 findings.
     fn absorb(&mut self, rec: &StepRec) {
+        if rec.executed {
+            if let Op::Open { slot, .. } | Op::Close { slot } = &rec.op {
+                // whatever was in the slot is closed now (also if the open
+                // failed): data written through it was written through "a
+                // handle that is gone"
+                self.slot_closed(rec.host, *slot as usize % NSLOTS);
+            }
+        }
         if !rec.executed || !rec.model_ok || !rec.real_ok {
             return;
         }
         let h = rec.host;
         match &rec.op {
-            Op::Open { path, fl, .. } => {
+            Op::Open { slot, path, fl, .. } => {
                 let Some(ino) = rec.last.ino else { return };
                 if fl.truncate && fl.write {
                     let after = self.run.hosts[h].model.file(ino).clone();
                     self.dur[h].model.data_mut(ino, None, &after, false);
                     self.touched_through(h, pth(*path), ino);
+                    self.dur[h].pending_via.entry(ino).or_default().insert(*slot as usize % NSLOTS);
                 }
                 self.on_arrival(h, pth(*path), ino);
+                self.label_open_handles(h, ino);
             }
             Op::WriteAt { len, .. } | Op::Write { len, .. } => {
                 if *len > 0 {
@@ -410,6 +454,9 @@ impl<'a> Chain<'a> {
                     if let Some(hp) = rec.handle_path.clone() {
                         self.touched_through(h, &hp, ino);
                     }
+                    if let Some((s, _)) = self.cur_handle {
+                        self.dur[h].pending_via.entry(ino).or_default().insert(s);
+                    }
                 }
             }
             Op::SetLen { .. } => {
@@ -418,6 +465,9 @@ impl<'a> Chain<'a> {
                 self.dur[h].model.data_mut(ino, None, &after, true);
                 if let Some(hp) = rec.handle_path.clone() {
                     self.touched_through(h, &hp, ino);
+                }
+                if let Some((s, _)) = self.cur_handle {
+                    self.dur[h].pending_via.entry(ino).or_default().insert(s);
                 }
             }
             Op::WriteFile { path, len, .. } => {
@@ -431,10 +481,37 @@ impl<'a> Chain<'a> {
                 }
                 self.touched_through(h, pth(*path), ino);
                 self.on_arrival(h, pth(*path), ino);
+                // written by a path op: through no handle slot at all
+                self.dur[h].pending_via.entry(ino).or_default().insert(usize::MAX);
             }
-            Op::SyncAll { .. } | Op::SyncData { .. } => {
+            Op::SyncAll { fe, .. } | Op::SyncData { fe, .. } => {
                 let ino = rec.handle_ino.unwrap();
                 let cur = self.run.hosts[h].model.file(ino).clone();
+                // ---- class labels: which handle carries the sync, and whose
+                // data it has to make durable.  A successful fsync / sync_all /
+                // sync_data / ring Fsync is a data sync of the FILE: it covers
+                // what was written through every descriptor of it, whatever
+                // the access mode of the descriptor it is issued on.
+                let via = self.dur[h].pending_via.remove(&ino).unwrap_or_default();
+                let pending = self.dur[h].model.files.get(&ino).map(|f| !f.muts.is_empty()).unwrap_or(false);
+                if let Some((s, tag)) = self.cur_handle {
+                    let flavour = if matches!(rec.op, Op::SyncAll { .. }) { "sync_all" } else { "sync_data" };
+                    let fe = match fe {
+                        Fe::Std => "std",
+                        Fe::Tokio => "tokio",
+                        Fe::Uring => "io_uring-fsync",
+                    };
+                    self.run.out.label(format!("file-sync:{fe}:on-{tag}-handle"));
+                    let foreign = pending && via.iter().any(|w| *w != s);
+                    if foreign {
+                        self.run.out.label("file-sync-covers-data-written-through-another-handle");
+                        self.run.out.label(format!("file-sync-of-foreign-data:{fe}:{flavour}:on-{tag}-handle"));
+                        self.run.out.count("file syncs that had to make durable data written through another handle", 1);
+                        if tag == "read-only" {
+                            self.run.out.count("file syncs on a read-only handle with data pending from another handle", 1);
+                        }
+                    }
+                }
                 self.dur[h].model.file_synced(ino, &cur);
                 if let Some(hp) = rec.handle_path.clone() {
                     self.touched_through(h, &hp, ino);
@@ -569,10 +646,48 @@ impl<'a> Chain<'a> {
         }
     }
 
+    fn slot_closed(&mut self, h: usize, s: usize) {
+        for v in self.dur[h].pending_via.values_mut() {
+            if v.remove(&s) {
+                v.insert(usize::MAX - 1);
+            }
+        }
+    }
+
+    /// Class labels: how many usable handles are open on `ino` and with
+    /// which access modes (after an open).
+    fn label_open_handles(&mut self, h: usize, ino: Ino) {
+        let hs = &self.run.hosts[h];
+        let tags: BTreeSet<&'static str> = hs
+            .mh
+            .iter()
+            .flatten()
+            .filter(|m| m.ino == ino && hs.model.lookup(&m.path) == Some(ino))
+            .map(access_tag)
+            .collect();
+        let n = hs.mh.iter().flatten().filter(|m| m.ino == ino && hs.model.lookup(&m.path) == Some(ino)).count();
+        if n >= 2 {
+            self.run.out.label(format!("file-with-{}-open-handles", n.min(3)));
+            if tags.len() >= 2 {
+                self.run.out.label("file-with-handles-of-different-access-modes");
+            }
+            if tags.contains("read-only") && tags.len() >= 2 {
+                self.run.out.label("file-with-read-only-and-writable-handle");
+            }
+        }
+    }
+
     /// Execute ops[from..to] in lock-step; false on failure.
     fn execute(&mut self, from: usize, to: usize) -> bool {
         for i in from..to {
             let step = &self.sc.ops[i];
+            // the handle a handle op will work on (same resolution as the
+            // interpreter's: the k-th usable handle)
+            self.cur_handle = step.op.handle_slot().and_then(|raw| {
+                let hs = &self.run.hosts[(step.host as usize) % self.run.hosts.len()];
+                let s = fh::resolve_slot(&hs.model, &hs.mh, raw);
+                hs.mh[s].as_ref().map(|m| (s, access_tag(m)))
+            });
             self.run.step(i, step);
             if let Some(f) = self.run.out.failure.take() {
                 // a C10-type violation before the crash
@@ -924,6 +1039,7 @@ fn run_chain(sc: &Scenario, points: &[usize], sim: bool, agg: &mut Outcome) -> b
         sim: simsh,
         crashes: 0,
         nt: false,
+        cur_handle: None,
     };
     let mut pos = 0usize;
     let mut ok = true;
@@ -1023,6 +1139,47 @@ const RW_CREATE: OpenFlags = OpenFlags {
     create_new: false,
 };
 
+const RO: OpenFlags = OpenFlags {
+    read: true,
+    write: false,
+    append: false,
+    truncate: false,
+    create: false,
+    create_new: false,
+};
+const WO: OpenFlags = OpenFlags {
+    read: false,
+    write: true,
+    append: false,
+    truncate: false,
+    create: false,
+    create_new: false,
+};
+const RA: OpenFlags = OpenFlags {
+    read: true,
+    write: false,
+    append: true,
+    truncate: false,
+    create: false,
+    create_new: false,
+};
+const AO: OpenFlags = OpenFlags {
+    read: false,
+    write: false,
+    append: true,
+    truncate: false,
+    create: false,
+    create_new: false,
+};
+const RW: OpenFlags = OpenFlags {
+    read: true,
+    write: true,
+    append: false,
+    truncate: false,
+    create: false,
+    create_new: false,
+};
+
 fn flags_strategy() -> impl Strategy<Value = OpenFlags> {
     prop_oneof![
         5 => Just(RW_CREATE),
@@ -1030,9 +1187,26 @@ fn flags_strategy() -> impl Strategy<Value = OpenFlags> {
         3 => Just(OpenFlags { write: true, create: true, truncate: true, ..Default::default() }),
         2 => Just(OpenFlags { read: true, write: true, truncate: true, ..Default::default() }),
         3 => Just(OpenFlags { read: true, append: true, create: true, ..Default::default() }),
-        2 => Just(OpenFlags { read: true, write: true, ..Default::default() }),
-        1 => Just(OpenFlags { append: true, ..Default::default() }),
+        2 => Just(RW),
+        1 => Just(AO),
+        // a handle that cannot dirty anything itself (File::open): syncing
+        // through it is legal and is a sync of the file
+        3 => Just(RO),
+        1 => Just(WO),
+        1 => Just(OpenFlags { write: true, create: true, ..Default::default() }),
     ]
+}
+
+/// Access modes of an additional handle on a file that exists (no creation,
+/// no truncation): every access-mode class.
+fn access_only_flags() -> impl Strategy<Value = OpenFlags> {
+    prop_oneof![5 => Just(RO), 2 => Just(RW), 1 => Just(WO), 1 => Just(RA), 1 => Just(AO)]
+}
+
+/// Paths of an additional handle: the two files the prologue keeps open
+/// (`/f0`, `/d0/a`) or the k-th existing file.
+fn reopen_path() -> impl Strategy<Value = u8> {
+    prop_oneof![3 => Just(4u8), 3 => Just(6u8), 4 => fh::sel(fh::SEL_FILE)]
 }
 
 fn op_strategy() -> impl Strategy<Value = Op> {
@@ -1041,6 +1215,8 @@ fn op_strategy() -> impl Strategy<Value = Op> {
     let len = 1u8..6;
     prop_oneof![
         14 => (slot.clone(), fh::file_path(), fh::fe_strategy(), flags_strategy()).prop_map(|(slot, path, fe, fl)| Op::Open { slot, path, fe, fl }),
+        // one more handle on a file that (usually) has one already
+        7 => (slot.clone(), reopen_path(), fh::fe_strategy(), access_only_flags()).prop_map(|(slot, path, fe, fl)| Op::Open { slot, path, fe, fl }),
         1 => slot.clone().prop_map(|slot| Op::Close { slot }),
         14 => (slot.clone(), off, len.clone(), fh::fe_strategy()).prop_map(|(slot, off, len, fe)| Op::WriteAt { slot, off, len, fe }),
         7 => (slot.clone(), len.clone(), fh::fe_strategy()).prop_map(|(slot, len, fe)| Op::Write { slot, len, fe }),
@@ -1064,15 +1240,36 @@ fn step_strategy() -> impl Strategy<Value = Step> {
     (prop_oneof![4 => Just(0u8), 1 => Just(1u8)], op_strategy()).prop_map(|(host, op)| Step { host, op })
 }
 
+/// Number of prologue kinds.
+const NPROLOGUES: u8 = 8;
+
 /// Prologue: directory skeleton (kind 0), made durable (1), plus two open
 /// files whose entries are durable (2), plus synced content in them (3).
+/// Kinds 4..8 are kind 2 / 3 (by parity) plus additional handles of other
+/// access modes on the same two files in slots 2 (and 3).
 fn prologue(kind: u8, host: u8) -> Vec<Step> {
     let s = Fe::Std;
     let mk = |op| Step { host, op };
     let mut v = vec![mk(Op::CreateDirAll { path: 3, fe: s }), mk(Op::CreateDir { path: 2, fe: Fe::Tokio })];
+    let extra = kind >= 4;
+    let variant = kind;
+    let kind = if extra { 2 + (kind & 1) } else { kind };
     if kind >= 2 {
         v.push(mk(Op::Open { slot: 0, path: 4, fe: s, fl: RW_CREATE }));
         v.push(mk(Op::Open { slot: 1, path: 6, fe: Fe::Tokio, fl: RW_CREATE }));
+    }
+    match variant {
+        4 => v.push(mk(Op::Open { slot: 2, path: 4, fe: Fe::Tokio, fl: RO })),
+        5 => v.push(mk(Op::Open { slot: 2, path: 4, fe: s, fl: RO })),
+        6 => {
+            v.push(mk(Op::Open { slot: 2, path: 4, fe: s, fl: RO }));
+            v.push(mk(Op::Open { slot: 3, path: 6, fe: Fe::Tokio, fl: RA }));
+        }
+        7 => {
+            v.push(mk(Op::Open { slot: 2, path: 4, fe: Fe::Tokio, fl: WO }));
+            v.push(mk(Op::Open { slot: 3, path: 6, fe: s, fl: RO }));
+        }
+        _ => {}
     }
     if kind >= 3 {
         v.push(mk(Op::WriteAt { slot: 0, off: 0, len: 4, fe: s }));
@@ -1097,8 +1294,8 @@ fn config_strategy() -> impl Strategy<Value = (u8, u8, u64)> {
 
 pub fn strategy_with(strict: u32, cycles: bool, max_ops: usize) -> BoxedStrategy<Scenario> {
     (
-        prop_oneof![1 => Just(0u8), 1 => Just(1u8), 3 => Just(2u8), 3 => Just(3u8)],
-        prop_oneof![3 => Just(0u8), 1 => Just(1u8), 2 => Just(3u8)],
+        prop_oneof![1 => Just(0u8), 1 => Just(1u8), 3 => Just(2u8), 3 => Just(3u8), 1 => Just(4u8), 2 => Just(5u8), 1 => Just(6u8), 2 => Just(7u8)],
+        prop_oneof![6 => Just(0u8), 2 => Just(1u8), 3 => Just(3u8), 1 => Just(5u8), 1 => Just(7u8)],
         proptest::collection::vec(step_strategy(), 2..max_ops),
         config_strategy(),
         proptest::collection::vec(0u16..u16::MAX, 2..4),
@@ -1142,7 +1339,7 @@ pub fn fuzz_sanitize(sc: &mut Scenario) -> bool {
     sc.probe = None;
     sc.sync_pct = [0u8, 0, 0, 30, 30][(sc.sync_pct % 5) as usize];
     sc.block = [0u8, 0, 0, 2, 3][(sc.block % 5) as usize];
-    let kind = (sc.seed >> 32) as u8 % 4;
+    let kind = (sc.seed >> 32) as u8 % NPROLOGUES;
     sc.seed %= 1000;
     sc.ops.truncate(17);
     for st in sc.ops.iter_mut() {
@@ -1168,6 +1365,116 @@ pub fn fuzz_sanitize(sc: &mut Scenario) -> bool {
         }
     }
     true
+}
+
+
+// ---------------------------------------------------------------------------
+// bounded-exhaustive family: several handles on one file
+
+/// Every history of the shape
+///
+/// ```text
+///   [file exists durably with synced content | file created by the writer, entry made durable]
+///   writer  = open(/f0, one of 4 writable access modes)        slot 0
+///   syncer  = open(/f0, one of 5 access modes, std | tokio)    slot 1   (before or after the mutation)
+///   mutation through the writer (write_at / append-write | set_len ; std | tokio | io_uring)
+///   [writer closed]
+///   sync_all | sync_data through the SYNCER (std | tokio | io_uring fsync)
+///   [writer opened again]
+///   one more write through the writer (never synced)
+/// ```
+///
+/// under atomic and torn (block 2) writes, executed in mode `Prefixes` (a
+/// crash after every prefix).  The clause exercised is the property's "its
+/// contents are those at its last data sync (sync_all, sync_data or an
+/// io_uring fsync)": a data sync is a sync of the file, so it covers the data
+/// written through any of its handles, whatever handle it is issued on.
+pub fn handle_family() -> Vec<Scenario> {
+    let s = Fe::Std;
+    let cr = |f: OpenFlags| OpenFlags { create: true, ..f };
+    let writers = [RW_CREATE, cr(WO), cr(RA), cr(AO)];
+    let syncers = [RO, RW, WO, RA, AO];
+    let fes = [Fe::Std, Fe::Tokio, Fe::Uring];
+    // mixed-radix enumeration, last dimension fastest
+    let dims = [2usize, 2, 4, 2, 3, 5, 2, 2, 2, 3, 2];
+    let total: usize = dims.iter().product();
+    let mut v = Vec::with_capacity(total);
+    for mut k in 0..total {
+        let mut d = [0usize; 11];
+        for i in (0..dims.len()).rev() {
+            d[i] = k % dims[i];
+            k /= dims[i];
+        }
+        let block = [0u8, 2][d[0]];
+        let exists_synced = d[1] == 1;
+        let wfl = writers[d[2]];
+        let set_len = d[3] == 1;
+        let mfe = fes[d[4]];
+        let sfl = syncers[d[5]];
+        let sofe = [Fe::Std, Fe::Tokio][d[6]];
+        let syncer_first = d[7] == 1;
+        let sync_data = d[8] == 1;
+        let sfe = fes[d[9]];
+        let writer_closed = d[10] == 1;
+
+        let wofe = if mfe == Fe::Tokio { Fe::Tokio } else { s };
+        let mut ops: Vec<Op> = Vec::new();
+        if exists_synced {
+            ops.extend([
+                Op::Open { slot: 0, path: 4, fe: s, fl: RW_CREATE },
+                Op::WriteAt { slot: 0, off: 0, len: 4, fe: s },
+                Op::SyncAll { slot: 0, fe: s },
+                Op::SyncDir { path: 0, fe: s },
+                Op::Close { slot: 0 },
+            ]);
+        }
+        ops.push(Op::Open { slot: 0, path: 4, fe: wofe, fl: wfl });
+        if !exists_synced {
+            ops.push(Op::SyncDir { path: 0, fe: Fe::Tokio });
+        }
+        // handle ops address the k-th usable handle: with both slots open, 0 is
+        // the writer and 1 the syncer; while only one of them is open every
+        // slot number names it
+        let mutation = if set_len {
+            Op::SetLen { slot: 0, len: 2, fe: mfe }
+        } else if wfl.append {
+            Op::Write { slot: 0, len: 3, fe: mfe }
+        } else {
+            Op::WriteAt { slot: 0, off: 1, len: 3, fe: mfe }
+        };
+        let open_syncer = Op::Open { slot: 1, path: 4, fe: sofe, fl: sfl };
+        if syncer_first {
+            ops.push(open_syncer);
+            ops.push(mutation);
+        } else {
+            ops.push(mutation);
+            ops.push(open_syncer);
+        }
+        if writer_closed {
+            // "open read-only just to fsync": the handle the data was written
+            // through is gone when the sync is issued
+            ops.push(Op::Close { slot: 0 });
+        }
+        ops.push(if sync_data { Op::SyncData { slot: 1, fe: sfe } } else { Op::SyncAll { slot: 1, fe: sfe } });
+        if writer_closed {
+            ops.push(Op::Open { slot: 0, path: 4, fe: wofe, fl: wfl });
+        }
+        ops.push(if wfl.append {
+            Op::Write { slot: 0, len: 2, fe: s }
+        } else {
+            Op::WriteAt { slot: 0, off: 0, len: 2, fe: s }
+        });
+        v.push(Scenario {
+            ops: ops.into_iter().map(|op| Step { host: 0, op }).collect(),
+            sync_pct: 0,
+            block,
+            seed: 0,
+            mode: Mode::Prefixes,
+            strict: 0,
+            probe: None,
+        });
+    }
+    v
 }
 
 // ---------------------------------------------------------------------------
@@ -1243,6 +1550,10 @@ fn check(tier: Tier, seed: u64) -> i32 {
     ctx.replay_corpus(&replay);
     // development aid: C07_STRICT=<mask> switches C10 known-finding rules off
     let strict = env_mask("C07_STRICT");
+    // development aid: C07_SUBS=a,b runs only the named sub-checks (class
+    // distribution of one sub-check)
+    let only: Option<Vec<String>> = std::env::var("C07_SUBS").ok().map(|v| v.split(',').map(|x| x.trim().to_string()).collect());
+    let want = |sub: &str| only.as_ref().map(|o| o.iter().any(|x| x == sub)).unwrap_or(true);
     let ps = probes();
     if let Ok(dir) = std::env::var("C07_DUMP_PROBES") {
         // development aid: write one replay file per probe with its actual failure
@@ -1276,32 +1587,44 @@ fn check(tier: Tier, seed: u64) -> i32 {
             &run_sim,
         );
     }
-    ctx.random(
-        "prefixes",
-        tier.pick(12_000, 150_000),
-        &move || strategy_with(strict, false, 18),
-        &run,
-    );
-    ctx.random(
-        "cycles",
-        tier.pick(12_000, 150_000),
-        &move || strategy_with(strict, true, 30),
-        &run,
-    );
-    ctx.random(
-        "sim",
-        tier.pick(1_000, 12_000),
-        &move || strategy_with(strict, false, 12),
-        &run_sim,
-    );
-    ctx.random(
-        "sim-cycles",
-        tier.pick(1_000, 12_000),
-        &move || strategy_with(strict, true, 24),
-        &run_sim,
-    );
+    {
+        let fam = handle_family();
+        let n = fam.len();
+        // inside a Sim: every 11th member in the quick tier (11 is coprime to every
+        // dimension of the family, so all values of all dimensions are sampled), all in thorough
+        let stride = tier.pick(11usize, 1usize);
+        let simfam: Vec<Scenario> = fam.iter().enumerate().filter(|(i, _)| (i + seed as usize) % stride == 0).map(|(_, s)| s.clone()).collect();
+        if want("handles") {
+            ctx.exhaustive(
+                "handles",
+                &format!("{n} histories: a file (existing durably with synced content | just created, entry durable) with two handles open at once, writer access mode in {{read+write, write-only, read+append, append-only}} x mutation in {{write, set_len}} through the writer via {{std, tokio, io_uring}} x second handle of access mode in {{read-only, read+write, write-only, read+append, append-only}} opened via {{std, tokio}} before | after the mutation x {{sync_all, sync_data}} through the SECOND handle via {{std, tokio, io_uring fsync}} while the writer is still open | already closed, then one more unsynced write through the writer; block_size in {{None, 2}}; a crash after every prefix"),
+                Box::new(fam.into_iter()),
+                &run,
+            );
+        }
+        if want("sim-handles") {
+            ctx.exhaustive(
+                "sim-handles",
+                &format!("{} members of the `handles` family (every {stride}th, offset by the seed) inside a running turmoil::Sim (Sim::crash + Sim::bounce after every prefix)", simfam.len()),
+                Box::new(simfam.into_iter()),
+                &run_sim,
+            );
+        }
+    }
+    if want("prefixes") {
+        ctx.random("prefixes", tier.pick(12_000, 150_000), &move || strategy_with(strict, false, 18), &run);
+    }
+    if want("cycles") {
+        ctx.random("cycles", tier.pick(12_000, 150_000), &move || strategy_with(strict, true, 30), &run);
+    }
+    if want("sim") {
+        ctx.random("sim", tier.pick(1_000, 12_000), &move || strategy_with(strict, false, 12), &run_sim);
+    }
+    if want("sim-cycles") {
+        ctx.random("sim-cycles", tier.pick(1_000, 12_000), &move || strategy_with(strict, true, 24), &run_sim);
+    }
     ctx.finish(
-        "random histories (prologue of 2-10 ops + up to 17 / 29 generated ops over the 13-path universe of C10, two hosts = two independent trees; create, create_new, open with truncate / append, write_at, cursor write and append, set_len, sync_all, sync_data, io_uring fsync, sync_dir, rename incl. onto existing names and across directories, remove_file, create_dir, remove_dir, fs::write; std shim, tokio shim and io_uring mixed) under a configuration sync_probability in {0, 0.3} x block_size in {None, 2, 3} x Fs seed. Sub `prefixes`: a crash (Fs::crash + IoUringHostState::crash, as Sim::crash does) after EVERY prefix of every history, each prefix re-executed from scratch on fresh hosts; sub `cycles`: one linear execution with 2-3 crash-continue-crash cycles; subs `sim` / `sim-cycles`: the same inside a running turmoil::Sim, ops executed by host software (an interpreter of ops sent as data), crash = Sim::crash + Sim::bounce, the post-crash observation made by the restarted software. Before the crash the C10 lock-step oracle applies to every op; after the crash exists / metadata / read / read_dir over the whole universe is compared with the two-level durability model (data-durable content per inode, durable entry map per directory; admissible sets for background sync and torn writes enumerated), and the other host must still show its current view. Non-trivial = a crashed prefix contains a durable and a non-durable mutation of the same untainted, asserted file or directory. Distinct by scenario hash.",
+        "random histories (prologue of 2-12 ops per host + up to 17 / 29 generated ops over the 13-path universe of C10, two hosts = two independent trees; create, create_new, open with truncate / append, read-only / write-only / append-only opens, additional handles of every access mode on a file that is already open (up to 4 handles per host), write_at, cursor write and append, set_len, sync_all, sync_data, io_uring fsync through ANY open handle of the file whatever its access mode (a data sync is per file: it makes durable what was written through every handle), sync_dir, rename incl. onto existing names and across directories, remove_file, create_dir, remove_dir, fs::write; std shim, tokio shim and io_uring mixed) under a configuration sync_probability in {0, 0.3} x block_size in {None, 2, 3} x Fs seed. Sub `handles` (bounded-exhaustive) / `sim-handles`: the two-handle family described under exhaustive_subspaces, a crash after every prefix. Sub `prefixes`: a crash (Fs::crash + IoUringHostState::crash, as Sim::crash does) after EVERY prefix of every history, each prefix re-executed from scratch on fresh hosts; sub `cycles`: one linear execution with 2-3 crash-continue-crash cycles; subs `sim` / `sim-cycles`: the same inside a running turmoil::Sim, ops executed by host software (an interpreter of ops sent as data), crash = Sim::crash + Sim::bounce, the post-crash observation made by the restarted software. Before the crash the C10 lock-step oracle applies to every op; after the crash exists / metadata / read / read_dir over the whole universe is compared with the two-level durability model (data-durable content per inode, durable entry map per directory; admissible sets for background sync and torn writes enumerated), and the other host must still show its current view. Non-trivial = a crashed prefix contains a durable and a non-durable mutation of the same untainted, asserted file or directory. Distinct by scenario hash.",
         &[
             "io_error / corruption / short_read probabilities 0, io_latency None, no capacity limit, no page cache",
             "asserted only for files and directories all of whose ancestor directories exist durably; everything strictly below a directory that was removed and created again since the last crash, and below a directory whose durable and current incarnation differ, is a dangling subtree and not asserted",
